@@ -514,7 +514,7 @@ def slice_dim(f, slicedef, fuzzydim=True):
             newlen = vout.shape[axis]
             newdim = outf.createDimension(dimkey, newlen)
             newdim.setunlimited(unlimited)
-            outf.variables[varkey] = vout
+            outf.variables[varkey] = vout.copy()
 
     history = getattr(outf, 'history', '')
     history += historydef
